@@ -56,6 +56,25 @@ package capella
 //@   ensures (err != nil) == exhdr_raw_err_capella(v)
 //@   ensures err == nil ==> r != nil && r == exhdr_raw_capella(v)
 
+// ---------------------------------------------------------------- withdrawal predicates (C01)
+// has_eth1_withdrawal_credential / is_fully_withdrawable_validator / is_partially_withdrawable_validator,
+// over the assumed validator view models (snapshot semantics). The accessors' errors make these panic: excluded by
+// the preconditions (a validator view over a well-formed registry has no read errors).
+//@ func HasEth1WithdrawalCredential(validator) r
+//@   property C01
+//@   requires readable: validator != nil && !v_wcred_err(validator)
+//@   ensures prefix: r == (v_wcred(validator)[0] == 1)
+
+//@ func IsFullyWithdrawableValidator(validator, balance, epoch) r
+//@   property C01
+//@   requires readable: validator != nil && !v_wcred_err(validator) && !v_wd_err(validator)
+//@   ensures spec: r == (v_wcred(validator)[0] == 1 && v_wd(validator) <= epoch && balance > 0)
+
+//@ func IsPartiallyWithdrawableValidator(spec, validator, balance, epoch) r
+//@   property C01
+//@   requires readable: spec != nil && validator != nil && !v_wcred_err(validator) && !v_eb_err(validator)
+//@   ensures spec: r == (v_wcred(validator)[0] == 1 && v_eb(validator) == spec.MAX_EFFECTIVE_BALANCE && balance > spec.MAX_EFFECTIVE_BALANCE)
+
 // BEGIN C18 generated (tools/gen_c18.py in /verif)
 // cancelled: a context cancelled before the call makes it fail; surfaced: a cancellation observed by a poll
 // during the call makes it fail; polled: success after a poll means the context was not cancelled at entry.
@@ -142,8 +161,10 @@ package capella
 //@   loop *
 //@     invariant ctx_t >= old(ctx_t) && (old(ctx_seen) || !ctx_seen)
 //@     invariant ctx_t > old(ctx_t) ==> !ctx_cancelled(ctx, old(ctx_t))
+//@   assigns ghost(n_set_score)
 //@   assigns ghost(n_eth1_reset), ghost(n_slash_reset), ghost(last_slash_reset), ghost(n_set_mix), ghost(last_set_mix_epoch), ghost(last_set_mix), ghost(n_hist_update)
 //@   assigns ghost(n_set_prevjust), ghost(set_prevjust), ghost(n_set_curjust), ghost(set_curjust), ghost(n_set_fin), ghost(set_fin), ghost(n_set_jbits), ghost(set_jbits)
+//@   assigns ghost(n_viter), ghost(viter_pos), ghost(viter_reg), ghost(n_val_write), ghost(n_set_exit), ghost(set_exit_v), ghost(set_exit_val), ghost(n_set_wd), ghost(set_wd_v), ghost(set_wd_val)
 
 //@ func (state *BeaconStateView) ProcessBlock(ctx, spec, epc, benv) err
 //@   property C18
@@ -162,6 +183,7 @@ package capella
 //@   assigns ghost(n_eng_notify), ghost(n_set_exec_header)
 //@   assigns ghost(n_set_mix), ghost(last_set_mix_epoch), ghost(last_set_mix)
 //@   assigns ghost(n_set_lhdr), ghost(set_lhdr)
+//@   assigns ghost(n_viter), ghost(viter_pos), ghost(viter_reg), ghost(n_val_write), ghost(n_set_exit), ghost(set_exit_v), ghost(set_exit_val), ghost(n_set_wd), ghost(set_wd_v), ghost(set_wd_val)
 
 //@ func ProcessWithdrawals(ctx, spec, state, executionPayload) err
 //@   property C18
